@@ -335,3 +335,57 @@ def append_ghost_arg(src, methods, ghost_arg):
         pos = b
     out.append(src[pos:])
     return ''.join(out), len(edits)
+
+
+def r17_pub_fields(src):
+    """R17: visibility widening on an extracted struct: every named field becomes `pub` (no run-time effect;
+    Verus forbids contracts of pub functions from mentioning non-pub fields)."""
+    st = sig(lex(src))
+    # find the struct body
+    i = 0
+    while i < len(st) and not (st[i].kind == 'id' and st[i].text == 'struct'):
+        i += 1
+    if i >= len(st):
+        return src, 0
+    j = i
+    while j < len(st) and not (st[j].kind == 'p' and st[j].text in ('{', ';', '(')):
+        j += 1
+    if j >= len(st) or st[j].text != '{':
+        return src, 0
+    end = match_close(st, j)
+    edits = []
+    k = j + 1
+    while k < end:
+        # skip attributes
+        while st[k].kind == 'p' and st[k].text == '#':
+            k = match_close(st, k + 1) + 1
+        if k >= end:
+            break
+        start = k
+        if st[k].kind == 'id' and st[k].text == 'pub':
+            if st[k + 1].kind == 'p' and st[k + 1].text == '(':
+                c = match_close(st, k + 1)
+                edits.append((st[k].start, st[c].end, 'pub'))
+        else:
+            edits.append((st[k].start, st[k].start, 'pub '))
+        # advance to the ',' that ends this field (depth 0, angle aware)
+        depth = 0
+        while k < end:
+            t = st[k]
+            if t.kind == 'p' and t.text in OPEN:
+                k = match_close(st, k)
+            elif t.kind == 'p' and t.text == '<':
+                depth += 1
+            elif t.kind == 'p' and t.text == '>' and not (st[k - 1].text == '-'):
+                depth -= 1
+            elif t.kind == 'p' and t.text == ',' and depth <= 0:
+                break
+            k += 1
+        k += 1
+    out, pos = [], 0
+    for a, b, rep in edits:
+        out.append(src[pos:a])
+        out.append(rep)
+        pos = b
+    out.append(src[pos:])
+    return ''.join(out), len(edits)
